@@ -172,7 +172,12 @@ class C11(Check):
                   'guarding mutex, so finer interleavings add no behaviours under sequential consistency (ARGUED in SyncModel.v, NOT '
                   'PROVED). A thread id runs at most once per scenario: restarting a Thread object after join() is allowed by the class '
                   'but impossible in the model and in the virtual pthread_create (EAGAIN). One object of each class per scenario; the '
-                  'ENOSYS polling fallback of Semaphore::wait(timeout) and the Windows paths are not modelled. "No waiter stays blocked" '
+                  'ENOSYS polling fallback of Semaphore::wait(timeout) (Semaphore.cpp:74-87, sem_trywait + usleep loop) is neither '
+                  'modelled nor ever executed by this check (the virtual sem_timedwait never reports ENOSYS); Thread::yield, '
+                  'Thread::sleep and Thread::getCurrentThreadId are not named by the property, not modelled and never called; the '
+                  'Windows paths are not modelled. Both public forms of Thread::start are executed by the harness (start(proc, param) '
+                  'for even child ids, the member-function template start(obj, &X::method) with its routine proc<Func0> for odd ones); '
+                  'the model has one start, the two forms reach the same pthread_create. "No waiter stays blocked" '
                   'is proved as absence of stuck states (a named thread has an enabled step that ends the configuration), not as '
                   'termination under a fairness assumption; for Monitor the woken waiter additionally needs the monitor lock, which a '
                   'caller may hold forever. Signal::wait(timeout) returns false when a timeout-steal hits it even though the signal is '
